@@ -1,3 +1,5 @@
+-- TIE-PROPS: C01 C02 C03 C04 C05 C06 C08 C09 C10 C17
+-- TIE-SECTION: extract_engine
 import PytaskProofs.Lemmas.EngineGenRefines
 /-!
 # EngineTie — the hand-written engine model M6 equals the engine computed from the source
